@@ -387,7 +387,7 @@ func runCase(c *Case, withClean bool) {
 		case "tamper":
 			f := filepath.Join(root, "out", filepath.FromSlash(op.Out))
 			before, statErr := os.Lstat(f)
-			if op.Garbage == nil && op.List == nil {
+			if op.Garbage == nil && op.List == nil && op.What != "overwrite-list" {
 				os.Remove(f)
 				break
 			}
